@@ -308,6 +308,9 @@ type harness struct {
 	probe *probeState
 	cfg   blockCfg
 	flags forkFlags
+	// fixedCfg: never touch process-global configuration (set for harnesses that run concurrently)
+	fixedCfg  bool
+	sharedCfg blockCfg
 }
 
 type blockCfg struct {
@@ -375,6 +378,15 @@ func setSchedule(c blockCfg) forkFlags {
 
 func (h *harness) applyCfg(c blockCfg) {
 	h.cfg = c
+	if h.fixedCfg {
+		// a harness running next to others in parallel goroutines: the process-global node configuration
+		// (common.LocalChainConfig, block height, gas regime) was put in force ONCE before they were spawned and
+		// must not be written here
+		if c != h.sharedCfg {
+			panic("parallel harness asked for a fork configuration other than the shared one")
+		}
+		return
+	}
 	f := setSchedule(c)
 	h.flags = f
 	if f.p013 != c.p013 || f.p007 != c.p007 || f.cbn != c.cbn {
